@@ -305,5 +305,88 @@ SPEC_FORMS['exists']=lambda s,e,st: _form_forall(s,e,st,True)
 
 def install(reg):
   """hook the collection semantics into an executor registry."""
-  reg.handlers.append(SymColl())
+  reg.handlers.append(SymColl()); reg.handlers.append(ByteArr())
   reg.loop_handlers.append(lambda ex,node,it,st: for_loop(ex,node,it,st) if it is not None else None)
+
+# ---------------------------------------------------------------------------------- bytearray
+class ByteArrayT(SpecType):
+  """a bytearray of symbolic length and contents: heap cells 'arr' (Int -> Int, every element in [0,256)) and 'len'."""
+  tag='bytearray'
+  def make(s,name,st,fresh):
+    r=st.alloc('bytearray'); sfx=f"!{st.nextid[0]}" if fresh else ''; st.nextid[0]+=1
+    st.heap[(r.id,'arr')]=z3.Const(f"{name}.arr{sfx}",z3.ArraySort(z3.IntSort(),z3.IntSort()))
+    ln=z3.Int(f"{name}.len{sfx}"); st.heap[(r.id,'len')]=I(ln); st.pc.append(ln>=0)
+    return r
+  def sample(s,rng,n,repo,reg):
+    return bytearray(rng.getrandbits(8) for _ in range(rng.choice([8,16,40])))
+
+class ConstInt(SpecType):
+  """an int parameter enumerated over concrete values (loops bounded by it unroll completely)."""
+  def __init__(s,k): s.k=k; s.tag='int'
+  def make(s,name,st,fresh): return I(s.k)
+  def build_native(s,name,model,repo,reg): return s.k
+  def sample(s,rng,n,repo,reg): return s.k
+
+class ByteArr:
+  METHODS={'__len__'}
+  def handles(s,o,st): return isinstance(o,Ref) and o.cls=='bytearray' and (o.id,'arr') in st.heap
+  def has_method(s,m): return m in s.METHODS
+  def _index(s,ex,o,idx,st):
+    """yield (st, int term | Exc) for a valid element index (negative indices wrap as in Python)."""
+    if isinstance(idx,Ref):
+      for st1,r in ex.call_method(idx,'__index__',[],st):
+        if isinstance(r,Exc): yield st1,r
+        else: yield from s._index(ex,o,r,st1)
+      return
+    if not is_intlike(idx): yield st,Exc('TypeError','bytearray index'); return
+    i=as_int(idx); n=as_int(st.heap[(o.id,'len')])
+    for st1,ok in ex.branch(st,z3.And(i>=0,i<n)):
+      if ok: yield st1,i; continue
+      for st2,neg in ex.branch(st1,z3.And(i<0,i>=-n)):
+        if neg: yield st2,i+n
+        else: yield st2,Exc('IndexError','bytearray index out of range')
+  def getitem(s,ex,o,idx,st):
+    for st1,i in s._index(ex,o,idx,st):
+      if isinstance(i,Exc): yield st1,i; continue
+      v=z3.Select(st1.heap[(o.id,'arr')],i)
+      st2=st1.fork(z3.And(v>=0,v<256))          # type invariant of bytearray elements
+      yield st2,I(v)
+  def setitem(s,ex,o,idx,v,st):
+    def store(st,i,val):
+      for st1,ok in ex.branch(st,z3.And(val>=0,val<256)):
+        if not ok: yield st1,('raise',Exc('ValueError','byte must be in range(0, 256)')); continue
+        st2=st1.fork(); st2.heap[(o.id,'arr')]=z3.Store(st1.heap[(o.id,'arr')],i,val); yield st2,None
+    for st1,i in s._index(ex,o,idx,st):
+      if isinstance(i,Exc): yield st1,('raise',i); continue
+      if isinstance(v,Ref):
+        for st2,r in ex.call_method(v,'__index__',[],st1):
+          if isinstance(r,Exc): yield st2,('raise',r)
+          else: yield from store(st2,i,as_int(r))
+      elif is_intlike(v): yield from store(st1,i,as_int(v))
+      else: yield st1,('raise',Exc('TypeError','an integer is required'))
+  def contains(s,ex,o,x,st,negate): raise Unsupported("membership in bytearray")
+  def call(s,ex,o,m,args,kw,st):
+    if m=='__len__': yield st,st.heap[(o.id,'len')]
+    else: raise Unsupported(f"bytearray.{m}")
+
+def _sf_byte(s,args,st):
+  """byteat(arr, i): element i of a bytearray in the current heap (contract expressions)."""
+  a=args[0]; return I(z3.Select(st.heap[(a.id,'arr')],as_int(args[1])))
+def _sf_blen(s,args,st): return st.heap[(args[0].id,'len')]
+SPEC_FUNS.update({'byteat':_sf_byte,'blen':_sf_blen})
+from . import runtime as _rt
+_rt.NATIVE['byteat']=lambda a,i: a[i] if 0<=i<len(a) else 0
+_rt.NATIVE['blen']=lambda a: len(a)
+_rt.NATIVE.update(dom=lambda d:set(d.keys()), at=lambda d,k:d.get(k,set()), getv=lambda d,k:d.get(k), subset=lambda a,b:set(a)<=set(b),
+                  disjoint=lambda a,b: not(set(a)&set(b)), emptyset=lambda: set())
+
+def _form_forall_int(s,e,st):
+  names=[a.id for a in e.args[:-1]]; body=e.args[-1]
+  vs=[z3.Int(f"{n}!q{st.nextid[0]}") for n in names]; st.nextid[0]+=1
+  st2=st.fork()
+  for n,v in zip(names,vs): st2.env[n]=I(v)
+  rs=list(s.ev(body,st2))
+  if len(rs)!=1: raise ToolError("branching inside quantifier body")
+  t=list(s.truth(rs[0][1],st2))[0][1]
+  yield st,B(z3.ForAll(vs,t))
+SPEC_FORMS['forall_int']=_form_forall_int
